@@ -907,12 +907,19 @@ func (h *ResponseHeader) AppendBytes(dst []byte) []byte {
 	if len(contentEncoding) > 0 {
 		dst = appendHeaderLine(dst, bytestr.StrContentEncoding, contentEncoding)
 	}
-	if len(h.contentLengthBytes) > 0 {
+	// 1xx and 204 responses never have a body and must not announce one (RFC 9110 8.6, RFC 9112 6.1).
+	// SetContentLength refuses to do so once such a status code is set, but the framing may have been
+	// chosen (SetBodyStream, SetContentLength) before the status code was.
+	noFraming := statusCode == consts.StatusNoContent || (statusCode >= 100 && statusCode < 200)
+	if len(h.contentLengthBytes) > 0 && !noFraming {
 		dst = appendHeaderLine(dst, bytestr.StrContentLength, h.contentLengthBytes)
 	}
 
 	for i, n := 0, len(h.h); i < n; i++ {
 		kv := &h.h[i]
+		if noFraming && bytes.Equal(kv.key, bytestr.StrTransferEncoding) {
+			continue
+		}
 		if h.noDefaultDate || !bytes.Equal(kv.key, bytestr.StrDate) {
 			dst = appendHeaderLine(dst, kv.key, kv.value)
 		}
